@@ -159,10 +159,16 @@ def build_lib(variant="san", shim=False):
     return od
 
 
-def build_driver(name, variant="san", shim=False, extra_src=(), extra_flags=()):
+WRAP = "-Wl,--wrap=malloc,--wrap=calloc,--wrap=realloc,--wrap=free,--wrap=strdup,--wrap=fopen,--wrap=fdopen,--wrap=fclose"
+
+
+def build_driver(name, variant="san", shim=False, extra_src=(), extra_flags=(), wrap=False):
     """Compile harness/c/<name>.c against the freshly built library; returns the binary path."""
     od = build_lib(variant, shim)
     srcs = [os.path.join(HC, name + ".c")] + [os.path.join(HC, s) for s in extra_src]
+    if wrap:
+        srcs.append(os.path.join(HC, "alloc_shim.c"))
+        extra_flags = list(extra_flags) + [WRAP]
     key = _tree_hash(srcs + glob.glob(os.path.join(HC, "*.h")), " ".join(extra_flags))
     exe = os.path.join(od, "%s-%s" % (name, key))
     if os.path.exists(exe):
